@@ -238,6 +238,21 @@ def case_kernel_grad(**p):
                 sig=dict(query='independent', layer=kind), witness={}, replay=None)
     W2 = np.asarray(W, dtype=object).reshape(-1, kshape[0])
     row = u0 if (kind == 'lattice' and p['units'] > 1) else 0
+    if p.get('independent'):
+      # reference written from the definition (not taken from the library): multilinear weights of a 2 x ... x 2 lattice at a
+      # point of the open unit cube, vertices in row-major order; decided as polynomial identities (normal form)
+      pts = x.reshape(-1, len(p['sizes']))
+      pairs = []
+      for v_, vert in enumerate(itertools.product(*[range(s_) for s_ in p['sizes']])):
+        ref = 1
+        for d, c in enumerate(vert):
+          ref = sym.s_mul(ref, pts[row, d] if c == 1 else sym.s_sub(1, pts[row, d]))
+        pairs.append((grads[v_, u0], ref))
+      sym.ctx().case_assumptions = [z3.And(v > 0, v < 1) for v in pts.reshape(-1)]
+      case.identity('kernel-gradient-is-multilinear-weight-by-definition[input=%d]' % xi, pairs, witness=dict(x=x, k=K), timeout=p.get('timeout', 300),
+                    sig=dict(query='kernel-grad-def', layer=kind), required=p.get('required', True),
+                    inline_replay=lambda m, x=x, K=K: _kgrad_def_replay(m, tr, x, K, layer, p))
+      continue
     bad = []
     interior = []
     if kind == 'lattice':
@@ -482,6 +497,16 @@ def _replay_collapsed(r, p, w):
   return dict(reproduced=bool(d > 1e-4), detail=dict(det, grad=grad.tolist(), reference=ref))
 
 
+def _kgrad_def_replay(m, tr, x, K, layer, p):
+  xn = core.model_np(m, x)
+  grads, _ = tr.tf_run(xn, var_values={layer.kernel.ref(): core.model_np(m, K)})
+  grads = np.asarray(grads, dtype=np.float64)[:, 0]
+  pt = xn.reshape(-1, len(p['sizes']))[0]
+  ref = np.array([np.prod([pt[d] if c == 1 else 1 - pt[d] for d, c in enumerate(vert)]) for vert in itertools.product(*[range(s_) for s_ in p['sizes']])])
+  d = float(np.max(np.abs(grads - ref)))
+  return dict(reproduced=bool(d > 1e-5), detail=dict(max_abs_diff_to_multilinear_weights=d, x=pt.tolist()))
+
+
 def _kgrad_replay(m, tr, x, K, layer, kind, u0, kshape, p):
   xn = core.model_np(m, x) if kind != 'categorical' else np.asarray(x, dtype=object).astype(np.int64)
   grads, W = tr.tf_run(xn, var_values={layer.kernel.ref(): core.model_np(m, K)})
@@ -573,6 +598,9 @@ def cases(tier, seed):
   add('case_kernel_grad', layer='lattice', sizes=[2, 2], units=1)
   add('case_kernel_grad', layer='lattice', sizes=[3, 2], units=2, unit=1)
   add('case_kernel_grad', layer='lattice', sizes=[2, 2, 2], units=1)
+  add('case_kernel_grad', layer='lattice', sizes=[2, 2, 2], units=1, independent=True)
+  # rank 8: batch_outer_operation switches to matmul from the 8th factor on
+  add('case_kernel_grad', layer='lattice', sizes=[2] * 8, units=1, independent=True, timeout=400)
   add('case_kernel_grad_list', sizes=[2, 3])
   add('case_kernel_grad_list', sizes=[3, 2, 2], required=False, timeout=120)
   add('case_kernel_grad_simplex', sizes=[3, 2])
